@@ -19,6 +19,7 @@ RULE = (
     "identifier position, size-limit shapes; layouts nested / exposed; inputs guided by the reference router to every "
     "reachable return and the fall-through. For programs without splitters (random choice) only membership and error "
     "class are compared. distinct_nontrivial = distinct (program, layout) with >= 1 conditional."
+    ' Added later: wild records (any Python value in any field, values whose str() raises), co-resident evaluators compared with the functions loaded from their own generated text, generate_code run in child interpreters with other hash seeds and its text loaded here, literals beyond the float range.'
 )
 ASSUMPTIONS = [
     "the evaluator itself is the oracle (its own correctness is C02/C03/C07's business)",
